@@ -459,6 +459,29 @@ func c13Check(c C13Case, cx *h.Ctx) *h.Failure {
 			return h.Failf("hull/invalid", "ConvexHull is not valid: %v%s", err, desc())
 		}
 	}
+	// the method of the concrete type gives the same hull as the method of Geometry
+	{
+		var ch geom.Geometry
+		switch g.Type() {
+		case geom.TypePoint:
+			ch = g.MustAsPoint().ConvexHull()
+		case geom.TypeLineString:
+			ch = g.MustAsLineString().ConvexHull()
+		case geom.TypePolygon:
+			ch = g.MustAsPolygon().ConvexHull()
+		case geom.TypeMultiPoint:
+			ch = g.MustAsMultiPoint().ConvexHull()
+		case geom.TypeMultiLineString:
+			ch = g.MustAsMultiLineString().ConvexHull()
+		case geom.TypeMultiPolygon:
+			ch = g.MustAsMultiPolygon().ConvexHull()
+		default:
+			ch = g.MustAsGeometryCollection().ConvexHull()
+		}
+		if d := gm.Diff(hull, gm.FromGeom(ch)); d != "" {
+			return h.Failf("hull/concrete-type-differs", "%s.ConvexHull() differs from Geometry.ConvexHull(): %s%s", g.Type(), d, desc())
+		}
+	}
 	// idempotent, bit-identical
 	if d := gm.Diff(hull, gm.FromGeom(hullG.ConvexHull())); d != "" {
 		return h.Failf("hull/not-idempotent", "ConvexHull(ConvexHull(g)) differs: %s%s", d, desc())
